@@ -4,6 +4,7 @@ import (
 	"bytes"
 	"encoding/hex"
 	"fmt"
+	"io"
 	"math"
 	"os"
 	"regexp"
@@ -243,17 +244,74 @@ func genC19(r *Rng, e *Emitter, n int) {
 					return "(err other)"
 				}
 				b := append([]byte{}, c19Buf.Bytes()...)
-				tr, _ := igc.Read(bytes.NewReader(b))
+				rd, done := c19Reader(b)
+				tr, _ := igc.Read(rd)
+				done()
 				return fmt.Sprintf("(ok %s %s)", hexS(b), sxCoord(tr.LineString.FlatCoords()))
 			}
 			var buf bytes.Buffer
 			if err := igc.NewEncoder(&buf, igc.A("XXXverif")).Encode(geom.NewLineStringFlat(geom.Layout(5), flat)); err != nil {
 				return "(err other)"
 			}
-			tr, _ := igc.Read(bytes.NewReader(buf.Bytes()))
+			rd, done := c19Reader(buf.Bytes())
+			tr, _ := igc.Read(rd)
+			done()
 			return fmt.Sprintf("(ok %s %s)", hexS(buf.Bytes()), sxCoord(tr.LineString.FlatCoords()))
 		}))
 	}
+}
+
+// c19Reader: the same bytes behind the kinds of reader a caller has: in memory, a pipe from another
+// process (an *os.File that is not a regular file), a regular file, a stream that arrives in pieces.
+var c19ReaderCount int
+
+type c19Chunks struct {
+	data []byte
+	n    int
+}
+
+func (c *c19Chunks) Read(p []byte) (int, error) {
+	if len(c.data) == 0 {
+		return 0, io.EOF
+	}
+	k := c.n
+	if k > len(c.data) {
+		k = len(c.data)
+	}
+	k = copy(p, c.data[:k])
+	c.data = c.data[k:]
+	return k, nil
+}
+
+func c19Reader(data []byte) (io.Reader, func()) {
+	c19ReaderCount++
+	switch c19ReaderCount % 16 {
+	case 1:
+		return strings.NewReader(string(data)), func() {}
+	case 3:
+		return bytes.NewBuffer(append([]byte{}, data...)), func() {}
+	case 5, 11:
+		pr, pw, err := os.Pipe()
+		if err != nil {
+			break
+		}
+		go func() {
+			pw.Write(data)
+			pw.Close()
+		}()
+		return pr, func() { io.Copy(io.Discard, pr); pr.Close() }
+	case 7:
+		return &c19Chunks{data: data, n: 1 + c19ReaderCount%13}, func() {}
+	case 9:
+		f, err := os.CreateTemp("", "verif-igc-*")
+		if err != nil {
+			break
+		}
+		f.Write(data)
+		f.Seek(0, io.SeekStart)
+		return f, func() { f.Close(); os.Remove(f.Name()) }
+	}
+	return bytes.NewReader(data), func() {}
 }
 
 var c19Buf bytes.Buffer
@@ -280,7 +338,9 @@ func c19EmitDec(e *Emitter, re *regexp.Regexp, data []byte) {
 	e.tally("op=decode")
 	e.pending("C19.dec", input)
 	e.emit("C19.dec", input, guard(func() string {
-		t, err := igc.Read(bytes.NewReader(data))
+		rd, done := c19Reader(data)
+		t, err := igc.Read(rd)
+		done()
 		nerr := 0
 		if errs, ok := err.(igc.Errors); ok {
 			nerr = len(errs)
